@@ -76,6 +76,7 @@ class Tracer:
         self.late_cli: dict[int, int] = {}         # id(client SimSocket) -> cn, when the server side registers later
         self.scope: dict[int, list] = {}           # thread ident -> stack of scopes ('u', c, t) / ('s', c)
         self.cur_send: dict[int, object] = {}      # thread ident -> message being sent through MessageRouter.send_message
+        self.send_pending: dict[int, int] = {}     # thread ident -> context: `send_message` has not yet taken `_send_lock`
         self.cur_pop: dict[int, str] = {}          # thread ident -> alias being popped by remove_peer_connection
         self.cur_recv: dict[int, tuple] = {}       # thread ident -> (receiver, message) inside _receive_signal
         self.in_disc: set[int] = set()
@@ -177,6 +178,11 @@ class Tracer:
         ctx._rpc_object_map_lock = LockTap(ctx._rpc_object_map_lock, lambda: self.on_lock("M", c))
         sockm = ctx._message_router._socket_manager
         sockm._lock = LockTap(sockm._lock, lambda: self.on_lock("S", c))
+        router = ctx._message_router
+        if hasattr(router, "_send_lock"):
+            # MessageRouter.send_message reads `_socket_manager` under `_send_lock` (held until the message is queued;
+            # MessageRouter.stop takes the same lock): the read is logged when the lock has been acquired
+            router._send_lock = LockTap(router._send_lock, lambda: self.on_send_lock(c, router))
         loop = ctx._message_router._thread.event_loop
         orig = loop.call_soon_threadsafe
 
@@ -225,6 +231,22 @@ class Tracer:
                 return
             return     # some other use of the socket-manager lock (get_peer_context_names …): not a modelled step
         self.micro(kind, c)
+
+    def router_read(self, c: int, router) -> None:
+        """`MessageRouter.send_message` reads `_thread` / `_socket_manager`"""
+        if router._thread is None or router._socket_manager is None:
+            # the router is being stopped: send_message raises before it takes the socket-manager lock;
+            # the model has the same step (`sendChk` with `routerDown`) in the lock class S
+            self.on_lock("S", c)
+        else:
+            # the router is read as active here; has_peer_context follows later
+            sc = self.cur_scope()
+            if sc is not None and sc[1] == c:
+                self.emit(f"rok {self.th(sc)}", "ok router-ok", "full", c)
+
+    def on_send_lock(self, c: int, router) -> None:
+        if self.send_pending.pop(_rt.get_ident(), None) is not None and self.active:
+            self.router_read(c, router)
 
     def on_rcv_lock(self, receiver) -> None:
         ident = _rt.get_ident()
@@ -392,20 +414,16 @@ class Tracer:
                     if type(message).__name__ == "QMI_SignalMessage" and message.args:
                         T.ev("tx", T.cid(self.context_name), message.args[0], message.destination_address.context_id)
                     c = T.cid(self.context_name)
-                    if self._thread is None or self._socket_manager is None:
-                        # the router is being stopped: send_message raises before it takes the socket-manager lock;
-                        # the model has the same step (`sendChk` with `routerDown`) in the lock class S
-                        T.on_lock("S", c)
+                    if isinstance(getattr(self, "_send_lock", None), LockTap):
+                        T.send_pending[ident] = c      # the read happens under `_send_lock`: see `on_send_lock`
                     else:
-                        # the router is read as active here, outside any lock; has_peer_context follows later
-                        sc = T.cur_scope()
-                        if sc is not None and sc[1] == c:
-                            T.emit(f"rok {T.th(sc)}", "ok router-ok", "full", c)
+                        T.router_read(c, self)         # a tree without the send lock: the read is the next statement
                 try:
                     return orig(self, message)
                 finally:
                     if tracked:
                         T.cur_send.pop(ident, None)
+                        T.send_pending.pop(ident, None)
             return send_message
         wrap(MS.MessageRouter, "send_message", mk_router_send)
 
